@@ -1,2 +1,299 @@
+"""SEL / SHAPE / DUP rules of C13 (SEL is shared with C08, C09, C10)."""
+from ..syn import es, pat_s
+from ..terms import term_s, subterms, analyse_iter, strip_refs
+from ..walk import ctx_s
+from ..facts import atom_s
+from ..parsers import ret_value_kind
+
+
+class Selection:
+    def __init__(self, fn, var):
+        self.fn = fn
+        self.var = var
+        self.assign_some = []
+        self.assign_none = []
+        self.loop = None
+        self.ok = True
+
+
+def selections(cx):
+    """mutable `let mut sel: Option<..> = None` variables assigned `Some(..)` inside a loop, in handler functions"""
+    out = []
+    for fn in cx.crate.fns:
+        if len(fn.module.path) < 2 or fn.module.path[0] != 'trait_handlers' or (len(fn.module.path) >= 3 and fn.module.path[2] == 'models'):
+            continue
+        fw = cx.fw(fn)
+        for d in fw.defs:
+            if d.kind == 'let' and d.mutable and d.init is not None and d.init['k'] == 'Path' and d.init['path']['s'] == 'None' and d.assigns:
+                somes = [a for a in d.assigns if a.value['k'] == 'Call' and es(a.value['func']) == 'Some']
+                if somes and any(any(c['k'] == 'for' for c in a.ctx) for a in somes):
+                    s = Selection(fn, d)
+                    s.assign_some = somes
+                    s.assign_none = [a for a in d.assigns if a.value['k'] == 'Path' and a.value['path']['s'] == 'None']
+                    out.append(s)
+    return out
+
+
 def check(cx, facts, rep):
-    pass
+    check_selections(cx, facts, rep)
+    check_shape(cx, facts, rep)
+    check_dup(cx, facts, rep)
+
+
+def check_selections(cx, facts, rep):
+    sels = selections(cx)
+    for s in sels:
+        fn, d = s.fn, s.var
+        fw = cx.fw(fn)
+        tm = cx.gm.terms_of(fw)
+        where = fn.qname
+        inst0 = 'select=%s' % d.name
+        good = True
+        for a in s.assign_some:
+            loops = [c for c in a.ctx if c['k'] == 'for' and c not in d.ctx]
+            if len(loops) != 1:
+                rep.bad('SEL', where, inst0 + '-loop', 'the designated item is assigned outside a single search loop', fn.file, a.line)
+                good = False
+                continue
+            L = loops[0]
+            info = analyse_iter(L['iter'])
+            if info.rev or [x for x in info.adaptors]:
+                rep.bad('SEL', where, inst0 + '-loop-order', 'the search loop does not visit the items in declaration order: `%s`' % es(L['iter']), fn.file, a.line)
+                good = False
+            # SEL1: payload is this iteration's (index, item[, ..])
+            payload = a.value['args'][0]
+            comps = payload['elems'] if payload['k'] == 'Tuple' else [payload]
+            terms = [tm.term(c, a.scope) for c in comps]
+            has_elem = any(t == ('elem', L['id']) for t in terms)
+            idx_terms = [t for t in terms if isinstance(t, tuple) and t[0] in ('idx',) or (isinstance(t, tuple) and t[0] == 'lit' and t[1] == 'Int')]
+            bad_idx = [t for t in terms if isinstance(t, tuple) and t[0] in ('bin', 'cast', 'mcall') and any(isinstance(x, tuple) and x[:1] == ('idx',) for x in subterms(t))]
+            if not has_elem or bad_idx or any(t[0] == 'idx' and t[1] != L['id'] for t in idx_terms if t[0] == 'idx'):
+                rep.bad('SEL', where, inst0 + '-payload',
+                        'the recorded designation is not this iteration\'s (index, item): %s' % [term_s(t, 60) for t in terms], fn.file, a.line)
+                good = False
+            # SEL2: duplicate handling before the assignment, under `sel.is_some()`
+            dup = []
+            for ev in fw.events:
+                if ev.seq < a.seq and L in ev.ctx:
+                    at = facts.atoms(tuple(c for c in ev.ctx if c not in a.ctx or True), fw)
+                    under_some = any(x[0] == 'some' and x[2] is True and x[1] == ('var', d.id, d.name) for x in at)
+                    if not under_some:
+                        continue
+                    if ev.kind == 'exit' and ev.how == 'return' and isinstance(ret_value_kind(ev), tuple):
+                        dup.append(('err', ret_value_kind(ev)[1], ev))
+                    if ev.kind == 'assign' and es(ev.target) == d.name and es(ev.value) == 'None':
+                        # ambiguity resolved to "none": must be followed by break
+                        brk = [e2 for e2 in fw.events if e2.kind == 'exit' and e2.how == 'break' and e2.seq > ev.seq and e2.ctx == ev.ctx]
+                        if brk:
+                            dup.append(('reset-and-stop', None, ev))
+            # the duplicate check must share the assignment's guards (same marked branch)
+            dup = [x for x in dup if set(c.key() for c in a.ctx if not c.get('prior')) <= set(c.key() for c in x[2].ctx)]
+            if not dup:
+                rep.bad('SEL', where, inst0 + '-duplicate',
+                        'a second designated item is not rejected before it replaces the first (no `if %s.is_some() { return Err(..) }` in the marked branch)' % d.name, fn.file, a.line)
+                good = False
+        # SEL3: none ⇒ Err after the loop
+        none_exit = False
+        for ev in fw.events:
+            if ev.kind == 'exit' and ev.how == 'return' and isinstance(ret_value_kind(ev), tuple):
+                at = facts.atoms(ev.ctx, fw)
+                if any(x[0] == 'some' and x[2] is False and x[1] == ('var', d.id, d.name) for x in at) and not any(c['k'] == 'for' and c not in d.ctx for c in ev.ctx):
+                    none_exit = True
+        if not none_exit:
+            rep.bad('SEL', where, inst0 + '-missing', 'a missing designation is not rejected (no `%s` is None ⇒ return Err after the search)' % d.name, fn.file, d.line)
+            good = False
+        # SEL4: the mark
+        marks = []
+        for a in s.assign_some:
+            at = facts.atoms(a.ctx, fw)
+            own = [x for x in at if x[0] in ('truth', 'some', 'cond') and x not in facts.atoms(d.ctx, fw)]
+            marks.append([atom_s(x) for x in own if not (x[0] == 'some' and x[1] == ('var', d.id, d.name))])
+        if good:
+            rep.ok('SEL', '%s|%s' % (where, inst0), {'file': fn.file, 'line': d.line, 'variable': d.name, 'marks': marks})
+    rep.floor('SEL', 8, '(10 unique-selection sites today)')
+
+
+# ------------------------------------------------------------------------------------------
+
+def handler_of(cx, trait, shape):
+    for t, sh, fn in cx.shape_handlers():
+        if t == trait and sh == shape:
+            return fn
+    return None
+
+
+def first_emission_seq(cx, fn):
+    hg = cx.hg(fn)
+    fw = cx.fw(fn)
+    seqs = []
+    for did, lst in hg.emissions(fw).items():
+        for ev, leaves in lst:
+            seqs.append(ev.seq)
+    return min(seqs) if seqs else None
+
+
+def check_shape(cx, facts, rep):
+    # S1 unions + Debug/PartialEq/Hash: `if !type_attribute.has_unsafe { return Err }` dominates every emission
+    for T in ('Debug', 'PartialEq', 'Hash'):
+        fn = handler_of(cx, T, 'union')
+        if fn is None:
+            rep.bad('SHAPE', 'trait_handlers::%s' % T, 'union-handler', 'no union handler for %s' % T, None, None)
+            continue
+        fw = cx.fw(fn)
+        hg = cx.hg(fn)
+        where = fn.qname
+        ok = True
+        n = 0
+        for did, lst in hg.emissions(fw).items():
+            for ev, leaves in lst:
+                n += 1
+                at = facts.atoms(ev.ctx, fw)
+                if not any(a[0] == 'truth' and a[2] is True and isinstance(a[1], tuple) and a[1][0] == 'field' and a[1][2] == 'has_unsafe' and a in at for a in at):
+                    ok = False
+                    rep.bad('SHAPE', where, 'unsafe-dominates', 'code is emitted for a union without the `unsafe` marker having been tested (`if !has_unsafe { return Err }` does not dominate this emission)', fn.file, ev.line)
+        # has_unsafe provenance: assigned only from UnsafePunctuatedMeta
+        if ok and n:
+            rep.ok('SHAPE', where + '|unsafe-dominates-%d-emissions' % n)
+    check_unsafe_parser(cx, rep)
+    # S2 unions + PartialOrd/Ord/Deref/DerefMut/Into ⇒ Err
+    for T in ('PartialOrd', 'Ord', 'Deref', 'DerefMut', 'Into'):
+        tops = [f for f in cx.handler_fns() if cx.trait_of_module(f.module) == T and len(f.module.path) == 2]
+        if not tops:
+            rep.bad('SHAPE', 'trait_handlers::%s' % T, 'top-handler', 'top handler not found', None, None)
+            continue
+        fn = tops[0]
+        fw = cx.fw(fn)
+        found = False
+        for ev in fw.events:
+            if ev.kind in ('tail', 'armval', 'exit'):
+                v = ev.node if ev.kind != 'exit' else ev.value
+                if v is None:
+                    continue
+                if 'trait_not_support_union' in es(v):
+                    arms = [c for c in ev.ctx if c['k'] == 'arm' and pat_s(c['pat']).startswith('Data::Union')]
+                    if arms:
+                        found = True
+        if found:
+            rep.ok('SHAPE', fn.qname + '|union-refused')
+        else:
+            rep.bad('SHAPE', fn.qname, 'union-refused', '%s on a union is not refused with trait_not_support_union in the `Data::Union` arm' % T, fn.file, fn.line)
+    # S5 unit variants under Deref/DerefMut/Into ⇒ Err before any emission for that handler
+    for T in ('Deref', 'DerefMut', 'Into'):
+        fn = handler_of(cx, T, 'enum')
+        if fn is None:
+            rep.bad('SHAPE', 'trait_handlers::%s' % T, 'enum-handler', 'no enum handler for %s' % T, None, None)
+            continue
+        fw = cx.fw(fn)
+        exits = [ev for ev in fw.events if ev.kind == 'exit' and ev.how == 'return' and 'trait_not_support_unit_variant' in es(ev.value or {})]
+        ok = False
+        for ev in exits:
+            at = facts.atoms(ev.ctx, fw)
+            if any(a[0] == 'shape' and a[2] == 'Unit' and a[3] is True for a in at) and any(c['k'] == 'for' for c in ev.ctx):
+                ok = True
+        first = first_emission_seq(cx, fn)
+        if ok:
+            rep.ok('SHAPE', fn.qname + '|unit-variant-refused')
+        else:
+            rep.bad('SHAPE', fn.qname, 'unit-variant', 'a unit variant under %s is not refused (no `Fields::Unit ⇒ return Err(trait_not_support_unit_variant)` in the variants loop)' % T, fn.file, fn.line)
+    # S6 Debug with nothing to print
+    for shape, ctor in (('struct', 'unit_struct_need_name'), ('enum', 'unit_variant_need_name'), ('enum', 'unit_enum_need_name')):
+        fn = handler_of(cx, 'Debug', shape)
+        if fn is None:
+            continue
+        fw = cx.fw(fn)
+        exits = [ev for ev in fw.events if ev.kind == 'exit' and ev.how == 'return' and ctor in es(ev.value or {})]
+        ok = False
+        for ev in exits:
+            at = facts.atoms(ev.ctx, fw)
+            if any(a[0] == 'some' and a[2] is False for a in at):
+                ok = True
+        if ok:
+            rep.ok('SHAPE', '%s|%s' % (fn.qname, ctor))
+        else:
+            rep.bad('SHAPE', fn.qname, ctor, 'Debug with nothing to print and no name is not refused (%s under `name is None`)' % ctor, fn.file, fn.line)
+    rep.floor('SHAPE', 12)
+
+
+def check_unsafe_parser(cx, rep):
+    fs = [f for f in cx.crate.fns if f.qname.endswith('unsafe_punctuated_meta::UnsafePunctuatedMeta::parse')]
+    if len(fs) != 1:
+        rep.broken.append('UnsafePunctuatedMeta::parse not found')
+        return
+    f = fs[0]
+    fw = cx.fw(f)
+    lets = [ev for ev in fw.events if ev.kind == 'let']
+    first = lets[0] if lets else None
+    ok = False
+    if first is not None and first.defs and first.init is not None:
+        t = es(first.init).replace(' ', '')
+        ok = t in ('input.parse::<Token!(unsafe)>().is_ok()', 'input.parse::<Token![unsafe]>().is_ok()') or ('Token' in t and 'unsafe' in t and t.endswith('.is_ok()') and t.startswith('input.parse'))
+        name = first.defs[0].name
+        # every constructed value uses that flag
+        for ev in fw.events:
+            if ev.kind == 'struct':
+                for fld in ev.node['fields']:
+                    if fld['member'] == 'has_unsafe' and es(fld['expr']) != name:
+                        ok = False
+        # nothing parsed before it
+        before = [e for e in fw.events if e.kind == 'mcall' and e.method.startswith('parse') and e.seq < first.seq and es(e.node) not in es(first.init)]
+        if before:
+            ok = False
+    if ok:
+        rep.ok('SHAPE', f.qname + '|unsafe-first')
+    else:
+        rep.bad('SHAPE', f.qname, 'unsafe-first', '`unsafe` is not parsed as the optional *first* token, or has_unsafe is not exactly the result of that test', f.file, f.line)
+
+
+def check_dup(cx, facts, rep):
+    # rank / target uniqueness: every insert(key, ..) into a map named by the handlers must be dominated by `!contains_key(&key)`
+    n = 0
+    for fn in cx.crate.fns:
+        if len(fn.module.path) < 2 or fn.module.path[0] != 'trait_handlers':
+            continue
+        fw = cx.fw(fn)
+        tm = cx.gm.terms_of(fw)
+        for ev in fw.events:
+            if ev.kind == 'mcall' and ev.method == 'insert' and len(ev.args) == 2:
+                r = strip_refs(ev.recv)
+                if r['k'] != 'Path':
+                    continue
+                d = ev.scope.lookup(r['path']['s'])
+                if d is None:
+                    continue
+                kt = tm.term(ev.args[0], ev.scope)
+                rt = tm.term(ev.recv, ev.scope)
+                # keys that are loop indices cannot repeat
+                if isinstance(kt, tuple) and kt[0] == 'idx':
+                    continue
+                if fn.qname.endswith('derive_input_handler'):
+                    continue
+                at = facts.atoms(ev.ctx, fw)
+                ok = any(a[0] == 'haskey' and a[1] == rt and a[2] == kt and a[3] is False for a in at)
+                inst = 'insert=%s[%s]' % (d.name, es(ev.args[0])[:30])
+                n += 1
+                if ok:
+                    rep.ok('DUP', '%s|%s' % (fn.qname, inst), {'file': fn.file, 'line': ev.line, 'map': d.name, 'key': es(ev.args[0])})
+                else:
+                    rep.bad('DUP', fn.qname, inst, 'a repeated key (rank / Into target) silently replaces the earlier entry: the insertion is not dominated by `if %s.contains_key(&key) { return Err(..) }`' % d.name,
+                            fn.file, ev.line)
+    # duplicate trait at the type level (lib.rs): get_mut hit ⇒ Err(reuse_a_trait) unless Into
+    for fn in cx.crate.fns:
+        if fn.name == 'derive_input_handler':
+            fw = cx.fw(fn)
+            exits = [ev for ev in fw.events if ev.kind == 'exit' and ev.how == 'return' and 'reuse_a_trait' in es(ev.value or {})]
+            ok = False
+            for ev in exits:
+                at = facts.atoms(ev.ctx, fw)
+                if any(a[0] == 'some' and a[2] is True and 'get_mut' in str(a[1]) for a in at):
+                    # only an `Into` continue may precede it
+                    ok = True
+            conts = [ev for ev in fw.events if ev.kind == 'exit' and ev.how == 'continue']
+            for c in conts:
+                at = [a for a in facts.atoms(c.ctx, fw)]
+                if not any(a[0] == 'cond' and 't == Trait::Into' in a[1] for a in at):
+                    ok = False
+            if ok:
+                rep.ok('DUP', fn.qname + '|trait-twice')
+            else:
+                rep.bad('DUP', fn.qname, 'trait-twice', 'a trait listed twice at the type level is not rejected (only Into may repeat)', fn.file, fn.line)
+    rep.floor('DUP', 8)
